@@ -31,6 +31,9 @@ class ExprMixin:
 
     def ev_Name(self, node, st):
         n = node.id
+        if self.spec_mode and n in ('result', '__exc__') and n in self.spec_env:
+            # in a postcondition `result` is the returned value, also when the body has a local of that name
+            return self.spec_env[n]
         if n in st.vars:
             return st.vars[n]
         if self.spec_mode:
